@@ -43,6 +43,40 @@ class Conn:
         self.seqs = None  # list of sequence counts when the target is told to keep them
 
 
+class Endpoint:
+    """Target side of one TCP connection: its own receive buffer and (at most one) session."""
+
+    def __init__(self, target, no):
+        self.target = target
+        self.no = no
+        self.buf = bytearray()
+        self.session = None
+        self.closed = False  # closed by the client
+        self.closed_by_peer = False  # closed by the target (after UnRegisterSession)
+
+    def feed(self, data):
+        """Bytes from the client; returns the bytes the target sends back."""
+        t = self.target
+        self.buf += data
+        out = b""
+        while True:
+            n = W.frame_len(self.buf)
+            if n is None or len(self.buf) < n:
+                break
+            raw = bytes(self.buf[:n])
+            del self.buf[:n]
+            t.ep = self
+            out += t._frame(raw)
+        return out
+
+    def close(self):
+        """The client closed the TCP connection: its session dies with it."""
+        self.closed = True
+        self.target._drop_session(self.session, graceful=False)
+        self.session = None
+        self.buf.clear()
+
+
 class Target:
     def __init__(self, device=None, policy=None, identity=None, keep_frames=False, keep_seqs=False, keep_cip=True):
         self.device = device
@@ -60,11 +94,9 @@ class Target:
         self.orphaned = []  # connections whose session went away without a Forward Close
         self.refused = []  # ('large'|'std', status) for each refused Forward Open
         self.fo_log = []  # ('large'|'std', size, accepted)
-        self.buf = bytearray()
-        self.tcp_is_open = False
-        self.tcp_closed_by_peer = False
+        self.endpoints = []
         self.tcp_no = 0
-        self.cur_session = None  # session registered on the current TCP connection
+        self.ep = None  # endpoint whose frame is being processed
         self._sess_i = 0
         self._conn_i = 0
         self.frames_seen = 0
@@ -80,20 +112,17 @@ class Target:
     def events_for(self, prefix):
         return [e for e in self.events if e[0].startswith(prefix)]
 
-    # ------------------------------------------------------------------ TCP endpoint
-    def tcp_open(self, addr):
-        self.tcp_is_open = True
-        self.tcp_closed_by_peer = False
+    # ------------------------------------------------------------------ TCP endpoints
+    def accept(self, addr):
+        """A client connected: returns the endpoint object for that TCP connection."""
         self.tcp_no += 1
-        self.buf.clear()
-        self.cur_session = None
+        ep = Endpoint(self, self.tcp_no)
+        self.endpoints.append(ep)
+        return ep
 
-    def tcp_close(self):
-        """The client closed the TCP connection: its session dies with it."""
-        self.tcp_is_open = False
-        self._drop_session(self.cur_session, graceful=False)
-        self.cur_session = None
-        self.buf.clear()
+    @property
+    def tcp_is_open(self):
+        return any(not ep.closed for ep in self.endpoints)
 
     def _drop_session(self, handle, graceful):
         if handle is None or handle not in self.sessions:
@@ -101,19 +130,6 @@ class Target:
         del self.sessions[handle]
         for cid in [c for c, conn in self.connections.items() if conn.session == handle]:
             self.orphaned.append(self.connections.pop(cid))
-
-    def feed(self, data):
-        """Bytes from the client; returns the bytes the target sends back."""
-        self.buf += data
-        out = b""
-        while True:
-            n = W.frame_len(self.buf)
-            if n is None or len(self.buf) < n:
-                break
-            raw = bytes(self.buf[:n])
-            del self.buf[:n]
-            out += self._frame(raw)
-        return out
 
     def udp(self, data, addr, bound):
         """A datagram to port 44818 (ListIdentity broadcast)."""
@@ -165,8 +181,8 @@ class Target:
         elif cmd == W.CMD_LIST_IDENTITY:
             if fr.length != 0:
                 self.event("C11/list-identity-length", f"ListIdentity request with {fr.length} data bytes")
-            if fr.session not in (0, self.cur_session):
-                self.event("C11/session-handle", f"ListIdentity with session {fr.session:#x}, granted {self.cur_session!r}")
+            if fr.session not in (0, self.ep.session):
+                self.event("C11/session-handle", f"ListIdentity with session {fr.session:#x}, granted {self.ep.session!r}")
             reply = W.build_frame(cmd, fr.session, W.list_identity_item(self.identity), context=fr.context)
         elif cmd in (W.CMD_RRDATA, W.CMD_UNITDATA):
             reply = self._data(fr)
@@ -189,31 +205,31 @@ class Target:
         if version != 1 or flags != 0:
             self.event("C11/register-body", f"RegisterSession version {version} flags {flags:#x}")
             return self._err(fr, 0x0069)
-        if self.cur_session is not None:
+        if self.ep.session is not None:
             self.event("C10/double-register", "RegisterSession on a TCP connection that already has a session")
             return self._err(fr, 0x0001)
         if self.policy.session != "accept":
             return self._err(fr, 0x0002)
         handle = self.policy.session_handles[self._sess_i % len(self.policy.session_handles)]
         self._sess_i += 1
-        self.sessions[handle] = {"tcp": self.tcp_no}
-        self.cur_session = handle
+        self.sessions[handle] = {"tcp": self.ep.no}
+        self.ep.session = handle
         return W.build_frame(W.CMD_REGISTER, handle, fr.body, context=fr.context)
 
     def _unregister(self, fr):
         if fr.length != 0:
             self.event("C11/unregister-length", f"UnRegisterSession with {fr.length} data bytes")
-        if fr.session != self.cur_session or fr.session not in self.sessions:
-            self.event("C11/session-handle", f"UnRegisterSession for session {fr.session:#x}, granted {self.cur_session!r}")
+        if fr.session != self.ep.session or fr.session not in self.sessions:
+            self.event("C11/session-handle", f"UnRegisterSession for session {fr.session:#x}, granted {self.ep.session!r}")
             return b""
         self._drop_session(fr.session, graceful=True)
-        self.cur_session = None
-        self.tcp_closed_by_peer = True  # the target closes the TCP connection after UnRegisterSession
+        self.ep.session = None
+        self.ep.closed_by_peer = True  # the target closes the TCP connection after UnRegisterSession
         return b""
 
     def _data(self, fr):
         connected = fr.command == W.CMD_UNITDATA
-        if fr.session == 0 or fr.session not in self.sessions or fr.session != self.cur_session:
+        if fr.session == 0 or fr.session not in self.sessions or fr.session != self.ep.session:
             if connected:
                 self.event("C10/I1/unitdata-without-session", f"SendUnitData with session {fr.session:#x}; registered: {sorted(self.sessions)}")
             else:
